@@ -22,6 +22,9 @@ CONSTANTS
   Salts = {0}
   DefaultLast = TRUE
   BareMaps = TRUE
+  NullKeys = FALSE
+  DupRules = FALSE
+  FlatOnly = FALSE
   MaxScopeMods = 1
   TableKinds = {"static"}
   SenderCap = 99
